@@ -311,6 +311,10 @@ type caseSpec struct {
 	KillAt       int    // kill: SIGKILL on entering the KillAt-th rename/unlink
 	RenameFailAt int    // failat: the RenameFailAt-th rename fails (one-shot child)
 	UnlinkFailAt int    // failat: the UnlinkFailAt-th unlink fails
+	// history: before this run, another (larger) indexing run for the same repository was SIGKILLed on entering its first
+	// rename, i.e. after it had written all its temp files: 1 = its temp files are left behind complete, 2 = they are
+	// left behind cut short (what a kill in the middle of writing them leaves)
+	PriorKill int
 }
 
 type scenario struct {
@@ -322,6 +326,7 @@ type scenario struct {
 	oldSet   map[string]int // name\x00content\x00version -> count, as a searcher should see the old index
 	newSet   map[string]int
 	idCache  map[string]string
+	leftover map[string]string // *.tmp files a killed earlier run left behind: name -> sha256
 }
 
 func docKey(name, content, version string) string { return name + "\x00" + content + "\x00" + version }
@@ -550,6 +555,15 @@ func (sc *scenario) listing(dir string, temps map[string]int, scratch string) (s
 	var out []entry
 	problem := ""
 	for _, e := range es {
+		if h, ok := sc.leftover[e.Name()]; ok {
+			if _, mine := temps[e.Name()]; !mine {
+				// debris of the killed earlier run that this run did not create anew: must be left alone
+				if sha(filepath.Join(dir, e.Name())) != h {
+					problem = "the run modified a temp file left behind by a killed earlier run: " + e.Name()
+				}
+				continue
+			}
+		}
 		tok := pathToken(e.Name(), temps)
 		if tok == "" || tok == "t?" {
 			problem = "unexpected file " + e.Name()
@@ -899,11 +913,59 @@ func errOf(reply string) string {
 	return "err"
 }
 
+// prepare sets up the index directory of a scenario: the old index (template) and, for the kill-then-retry histories,
+// the debris of an earlier, larger indexing run of the same repository that was really SIGKILLed (fresh child under
+// strace) on entering its first rename.
+func (rn *runner) prepare(cs caseSpec, dir string) *scenario {
+	t := rn.tpls[cs.Template]
+	copyDir(t.Dir, dir)
+	sc := mkScenario(cs, rn.tpls, dir, 1000+rn.nextDir)
+	if cs.PriorKill == 0 {
+		return sc
+	}
+	r := gen.NewRand(cs.Seed ^ 0x5eed)
+	g := 5000 + rn.nextDir
+	prior := f1util.BuildSpec{Dir: dir, RepoName: repoName, RepoID: repoID, Gen: g, ShardMerging: cs.ShardMerging, ShardMax: 4 * shardMax}
+	// several shards, each a few times the size of a shard of the run under test
+	for i := 0; len(f1util.PredictShards(prior.Docs, prior.ShardMax, false)) < 3; i++ {
+		prior.Docs = append(prior.Docs, mkDoc(r, fmt.Sprintf("big%d/killed%d.go", i%3, i), g))
+	}
+	s, err := f1util.Start(f1util.Mode{KillAt: 1}, filepath.Join(rn.root, fmt.Sprintf("prior%04d.log", rn.nextDir)), nil, rn.self, "child")
+	must(err)
+	req, _ := json.Marshal(prior)
+	_, _, died, err := s.Do(string(req), nil)
+	must(err)
+	s.Close()
+	if !died {
+		panic("the earlier run was not killed")
+	}
+	sc.leftover = map[string]string{}
+	es, _ := os.ReadDir(dir)
+	for _, e := range es {
+		p := filepath.Join(dir, e.Name())
+		if strings.HasSuffix(e.Name(), ".tmp") {
+			if cs.PriorKill == 2 {
+				if fi, err := os.Stat(p); err == nil && fi.Size() > 8 {
+					must(os.Truncate(p, fi.Size()*int64(30+r.Intn(65))/100))
+				}
+			}
+			sc.leftover[e.Name()] = sha(p)
+		} else if _, ok := t.Tokens[sha(p)]; !ok {
+			panic("the killed earlier run changed " + e.Name())
+		}
+	}
+	if len(sc.leftover) == 0 {
+		panic("the killed earlier run left no temp file behind")
+	}
+	rn.w.Count("history:retry-after-killed-run", 1)
+	rn.w.Count("history:leftover-temp-files", len(sc.leftover))
+	return sc
+}
+
 // runStop: one build in the stop session; every rename/unlink yields a snapshot = a crash state.
 func (rn *runner) runStop(cs caseSpec) {
 	dir := rn.freshDir()
-	copyDir(rn.tpls[cs.Template].Dir, dir)
-	sc := mkScenario(cs, rn.tpls, dir, 1000+rn.nextDir)
+	sc := rn.prepare(cs, dir)
 	req, _ := json.Marshal(sc.spec)
 	var snaps []string
 	var snapOps [][]f1util.FsOp
@@ -966,8 +1028,7 @@ func (rn *runner) emitPrefix(sc *scenario, all, pre observed, dir string, k int)
 // runFault: one build in the fault session (periodically failing renames/unlinks); the end state is observed.
 func (rn *runner) runFault(cs caseSpec) {
 	dir := rn.freshDir()
-	copyDir(rn.tpls[cs.Template].Dir, dir)
-	sc := mkScenario(cs, rn.tpls, dir, 1000+rn.nextDir)
+	sc := rn.prepare(cs, dir)
 	req, _ := json.Marshal(sc.spec)
 	reply, ops, died, err := rn.fault.Do(string(req), nil)
 	if err != nil || died {
@@ -991,8 +1052,7 @@ func (rn *runner) runFault(cs caseSpec) {
 // rename / unlink (corpus witnesses, replays, and the real-kill cross-check of the stop snapshots).
 func (rn *runner) runOneShot(cs caseSpec) {
 	dir := rn.freshDir()
-	copyDir(rn.tpls[cs.Template].Dir, dir)
-	sc := mkScenario(cs, rn.tpls, dir, 1000+rn.nextDir)
+	sc := rn.prepare(cs, dir)
 	mode := f1util.Mode{KillAt: cs.KillAt}
 	if cs.RenameFailAt > 0 {
 		mode.RenameFail = strconv.Itoa(cs.RenameFailAt)
@@ -1253,10 +1313,18 @@ func main() {
 			specs = append(specs, caseSpec{Mode: "buildfail", Template: k, NShards: 1 + r.Intn(3), Seed: r.U64(), ShardMerging: true})
 		}
 		for i := 0; i < f.N(14, 150); i++ {
-			specs = append(specs, randomSpec(r, "stop"))
+			cs := randomSpec(r, "stop")
+			if i%4 == 1 {
+				cs.PriorKill = 1 + r.Intn(2) // retry after a killed run
+			}
+			specs = append(specs, cs)
 		}
 		for i := 0; i < f.N(30, 300); i++ {
-			specs = append(specs, randomSpec(r, "fault"))
+			cs := randomSpec(r, "fault")
+			if i%10 == 3 {
+				cs.PriorKill = 1 + r.Intn(2)
+			}
+			specs = append(specs, cs)
 		}
 		for i := 0; i < f.N(2, 20); i++ {
 			cs := randomSpec(r, "kill")
